@@ -719,9 +719,9 @@ func hopsRule(c *Ctx, rule string) {
 				}
 			case "logKeys":
 				if ap, ok := st.Val.(*ssa.Call); ok && calleeNameCommon(&ap.Call) == "builtin.append" {
-					if strings.Contains(vstr(ap.Call.Args[0]), "curItem.logKeys") {
+					if loadsField(ap.Call.Args[0], "logKeys") {
 						appendsAtEnd = true
-					} else if strings.Contains(vstr(ap.Call.Args[len(ap.Call.Args)-1]), "curItem.logKeys") {
+					} else if loadsField(ap.Call.Args[len(ap.Call.Args)-1], "logKeys") {
 						prepends = true
 					}
 				}
@@ -737,6 +737,33 @@ func hopsRule(c *Ctx, rule string) {
 	if getter == nil {
 		return
 	}
+	// the index variable: the captured variable whose value indexes the collected hop keys in the getter
+	var idxVar *ssa.FreeVar
+	for _, b := range getter.Blocks {
+		for _, in := range b.Instrs {
+			var x, idx ssa.Value
+			switch v := in.(type) {
+			case *ssa.IndexAddr:
+				x, idx = v.X, v.Index
+			case *ssa.Index:
+				x, idx = v.X, v.Index
+			default:
+				continue
+			}
+			if !loadsField(x, "logKeys") {
+				continue
+			}
+			if u, ok := idx.(*ssa.UnOp); ok {
+				if fv, ok := u.X.(*ssa.FreeVar); ok {
+					idxVar = fv
+				}
+			}
+		}
+	}
+	if idxVar == nil {
+		c.Fail(rule, fname(getter)+":hops replayed from the start root towards the end root", c.P.Pos(getter.Pos()), "the captured variable that indexes the collected hop keys was not found in the getter closure (unresolved anchor)")
+		return
+	}
 	dec, inc := false, false
 	for _, b := range getter.Blocks {
 		for _, in := range b.Instrs {
@@ -745,7 +772,7 @@ func hopsRule(c *Ctx, rule string) {
 				continue
 			}
 			fv, ok := st.Addr.(*ssa.FreeVar)
-			if !ok || pname(fv) != "index" {
+			if !ok || fv != idxVar {
 				continue
 			}
 			if bo, ok := st.Val.(*ssa.BinOp); ok {
@@ -760,7 +787,21 @@ func hopsRule(c *Ctx, rule string) {
 			}
 		}
 	}
-	// initial value in the search closure
+	// initial value in the search closure: what is stored into the variable bound to that capture
+	var idxAlloc ssa.Value
+	for _, b := range search.Blocks {
+		for _, in := range b.Instrs {
+			mc, ok := in.(*ssa.MakeClosure)
+			if !ok || mc.Fn != ssa.Value(getter) {
+				continue
+			}
+			for k, fv := range getter.FreeVars {
+				if fv == idxVar && k < len(mc.Bindings) {
+					idxAlloc = mc.Bindings[k]
+				}
+			}
+		}
+	}
 	startsAtLast, startsAtZero := false, true
 	for _, b := range search.Blocks {
 		for _, in := range b.Instrs {
@@ -768,11 +809,14 @@ func hopsRule(c *Ctx, rule string) {
 			if !ok {
 				continue
 			}
-			if al, ok := st.Addr.(*ssa.Alloc); ok && al.Comment == "index" {
+			if idxAlloc != nil && st.Addr == idxAlloc {
 				startsAtZero = false
-				s := vstr(st.Val)
-				if strings.HasPrefix(s, "(builtin.len(") && strings.HasSuffix(s, ".logKeys) - 1)") {
-					startsAtLast = true
+				if bo, ok := st.Val.(*ssa.BinOp); ok && bo.Op.String() == "-" {
+					if k, isK := constInt(bo.Y); isK && k == 1 {
+						if ln, ok := bo.X.(*ssa.Call); ok && calleeNameCommon(&ln.Call) == "builtin.len" && loadsField(ln.Call.Args[0], "logKeys") {
+							startsAtLast = true
+						}
+					}
 				}
 				if k, isK := constInt(st.Val); isK && k == 0 {
 					startsAtZero = true
@@ -835,4 +879,17 @@ func c13Resolvable(c *Ctx) {
 	}
 	sort.Strings(missing)
 	c.Check(len(wk) >= 2 && len(missing) == 0, rule, "pathbadger write log entry kinds: written ⊆ read", c.P.Pos(rd.Pos()), "every entry kind produced by makeInternalWriteLog {"+joinKeys(wk)+"} has an arm in GetWriteLog", "GetWriteLog has no arm for entry kind(s) "+strings.Join(missing, ", ")+" that makeInternalWriteLog produces")
+}
+
+// loadsField: v is (a load of) the named field of some struct value.
+func loadsField(v ssa.Value, field string) bool {
+	switch x := v.(type) {
+	case *ssa.UnOp:
+		if fa, ok := x.X.(*ssa.FieldAddr); ok {
+			return fieldName(fa.X.Type(), fa.Field) == field
+		}
+	case *ssa.Field:
+		return fieldName(x.X.Type(), x.Field) == field
+	}
+	return false
 }
